@@ -516,6 +516,11 @@ example : errOf (run {} (.array ⟨.py .int64, .d1 [-9223372036854775808]⟩)) =
 example : errOf (run { labelsVariables := true } (.tuple ⟨.py .int64, .d1 [1, 2]⟩ [.str "a", .str "a"])) = some .value := by decide +kernel
 example : errOf (run {} (.iterator [.mapping [(.str "a", 1)] false, .mapping [(.str "b", 1)] false])) = some .value := by decide +kernel
 example : errOf (run {} (.tupleIterator [])) = some .type := by decide +kernel
+/-- the generated source facts the model is written over: the four candidates in ascending order, `<=`, the exact `max_`
+    (the repaired `-int(arr.min(...))`), the four registered overloads in the order of the model's `Form` dispatch -/
+example : intCandidates = [.int8, .int16, .int32, .int64] := by decide +kernel
+example : Generated.SampleArray.candidateTestIsLe = true ∧ Generated.SampleArray.maxComputedExactly = true := by decide +kernel
+example : Generated.SampleArray.registered.map (·.1) = ["Iterator", "Mapping", "tuple", "SampleSet"] := by decide +kernel
 /-- the hypotheses of `as_samples_every_form` are met by a nested input -/
 example : (Form.iterator [.sequence [.mapping [(.str "a", 1)] false], .tuple ⟨.nd .int8, .d2 [[2]] 1⟩ [.str "a"]]).Clean := by
   simp [Form.Clean, Form.CleanAll]
